@@ -15,12 +15,15 @@ use serde_json::Value;
 use std::time::Duration;
 
 /// Judges one delivery of a ChangeSuspectToDown timer. Returns (took_effect, class label).
-pub fn judge_timeout(rec: &CallRec, cfg: &CfgSpec, codec: CodecKind) -> Result<(bool, &'static str), Fail> {
+/// `same_epoch`: no Idle / Defunct / Rejoin / identity change happened between the call that issued the
+/// timer and this delivery (derived from notifications, not from the instance's own token).
+pub fn judge_timeout(rec: &CallRec, cfg: &CfgSpec, codec: CodecKind, same_epoch: bool) -> Result<(bool, &'static str), Fail> {
     let Call::Timer(Timer::ChangeSuspectToDown { member_id, incarnation, token }) = &rec.call else {
         unreachable!()
     };
     let r = rec.before.record(member_id.addr);
-    let token_current = *token == rec.before.snap.timer_token;
+    let _ = token;
+    let token_current = same_epoch;
     let (effective, class) = match r {
         _ if !token_current => (false, "stale-token"),
         None => (false, "record-absent"),
@@ -120,11 +123,13 @@ pub struct Mon {
     touched: std::collections::BTreeMap<u16, usize>,
     calls: u64,
     forgets: u64,
+    conn: ConnTracker,
+    epoch_after_call: Vec<u64>,
 }
 
 impl Mon {
     pub fn new(codec: CodecKind) -> Self {
-        Mon { codec, effective: 0, ineffective: 0, classes: Default::default(), intervening: false, touched: Default::default(), calls: 0, forgets: 0 }
+        Mon { codec, effective: 0, ineffective: 0, classes: Default::default(), intervening: false, touched: Default::default(), calls: 0, forgets: 0, conn: ConnTracker::default(), epoch_after_call: Vec::new() }
     }
 }
 
@@ -163,7 +168,8 @@ impl Monitor for Mon {
         }
         // timeouts Foca itself issued (first or repeated delivery)
         if let (Call::Timer(Timer::ChangeSuspectToDown { member_id, .. }), Origin::Issued(p) | Origin::Old(p)) = (&rec.call, origin) {
-            let (eff, class) = judge_timeout(rec, &runner.inst.cfg, self.codec)?;
+            let issued_epoch = self.epoch_after_call.get(p.issued_in).copied().unwrap_or(0);
+            let (eff, class) = judge_timeout(rec, &runner.inst.cfg, self.codec, issued_epoch == self.conn.epoch)?;
             if eff {
                 self.effective += 1;
             } else {
@@ -182,6 +188,8 @@ impl Monitor for Mon {
             }
         }
         let _ = Ev::Note(N::Idle);
+        self.conn.absorb(rec);
+        self.epoch_after_call.push(self.conn.epoch);
         Ok(())
     }
     fn finish(&mut self, out: &mut CaseOut) {
@@ -264,7 +272,27 @@ pub struct Cell {
     pub target_inc: u16,
     pub codec: CodecKind,
     pub rng_seed: u64,
+    /// identity changes performed before anything else (moves the 8-bit timer token to any value)
+    #[serde(default)]
+    pub pre_epochs: u16,
 }
+
+/// cells in which the epoch changes between issue and delivery, for token values around the wrap
+fn token_cell(i: u64) -> Cell {
+    let mut x = i;
+    let mut take = |n: u64| {
+        let r = x % n;
+        x /= n;
+        r
+    };
+    let event = [Event::LeaveCluster, Event::SelfDownDefunctOrRejoin, Event::ChangeIdentity, Event::IdleThenActiveAgain, Event::None, Event::HeaderHigherInc][take(6) as usize];
+    let pre_epochs = [1u16, 127, 252, 253, 254, 255, 256, 257, 511][take(9) as usize];
+    let notify_down = take(2) == 1;
+    let renewable = take(2) == 1;
+    let bystander = take(2) == 1;
+    Cell { event, notify_down, bystander, duplicate: true, renewable, target_inc: 0, codec: CodecKind::Fix, rng_seed: take(3), pre_epochs }
+}
+const TOKEN_CELLS: u64 = 6 * 9 * 2 * 2 * 2 * 3;
 
 fn cell(i: u64) -> Cell {
     let mut x = i;
@@ -281,7 +309,7 @@ fn cell(i: u64) -> Cell {
     let target_inc = [0u16, 3, u16::MAX - 1][take(3) as usize];
     let codec = [CodecKind::Fix, CodecKind::Var][take(2) as usize];
     let rng_seed = take(4);
-    Cell { event, notify_down, bystander, duplicate, renewable, target_inc, codec, rng_seed }
+    Cell { event, notify_down, bystander, duplicate, renewable, target_inc, codec, rng_seed, pre_epochs: 0 }
 }
 const CELLS: u64 = 17 * 2 * 2 * 2 * 2 * 3 * 2 * 4;
 
@@ -290,8 +318,16 @@ fn gossip(r: &Runner, src: Id, inc: u16, members: Vec<Member<Id>>) -> Call {
     Call::Data(crate::wire::build(r.inst.codec, &h, Some(&members), &[]))
 }
 
+thread_local! {
+    static CELL_CONN: std::cell::RefCell<ConnTracker> = std::cell::RefCell::new(ConnTracker::default());
+}
+fn cell_epoch() -> u64 {
+    CELL_CONN.with(|c| c.borrow().epoch)
+}
+
 fn do_call(r: &mut Runner, c: Call, log: &mut Vec<String>) -> CallRec {
     let rec = r.inst.call(c);
+    CELL_CONN.with(|c| c.borrow_mut().absorb(&rec));
     r.absorb(&rec, &Origin::NotTimer);
     log.push(rec.render(r.inst.codec));
     rec
@@ -306,6 +342,7 @@ fn fire_where(r: &mut Runner, log: &mut Vec<String>, pred: impl Fn(&Timer<Id>) -
     let i = r.pool.iter().position(|p| pred(&p.timer))?;
     let p = r.pool.remove(i);
     let rec = r.inst.call(Call::Timer(p.timer.clone()));
+    CELL_CONN.with(|c| c.borrow_mut().absorb(&rec));
     r.absorb(&rec, &Origin::Issued(p));
     log.push(rec.render(r.inst.codec));
     Some(rec)
@@ -322,6 +359,12 @@ pub fn exec_cell(c: &Cell, out: &mut CaseOut) -> Result<(), Fail> {
     };
     let mut r = Runner::new(&setup);
     let mut log: Vec<String> = Vec::new();
+    CELL_CONN.with(|c| *c.borrow_mut() = ConnTracker::default());
+    for i in 0..c.pre_epochs {
+        let renew = if c.renewable { RENEW_NEXT } else { RENEW_NONE };
+        do_call(&mut r, Call::ChangeIdentity(Id::with_renew(OWN_ADDR, 5 + (i % 2), renew)), &mut log);
+        log.clear();
+    }
     let t = Id::new(1, 2);
     let b = Id::new(2, 0);
     let inc = c.target_inc;
@@ -346,6 +389,7 @@ pub fn exec_cell(c: &Cell, out: &mut CaseOut) -> Result<(), Fail> {
         }
         fire_where(&mut r, &mut log, |t| matches!(t, Timer::SendIndirectProbe { .. }));
     }
+    let issue_epoch = cell_epoch();
     let Some(timeout) = timeout else {
         return Err(Fail::new("C11:table-setup", format!("could not raise a suspicion through probing:\n  {}", log.join("\n  "))));
     };
@@ -420,10 +464,12 @@ pub fn exec_cell(c: &Cell, out: &mut CaseOut) -> Result<(), Fail> {
     let deliveries = if c.duplicate { 2 } else { 1 };
     let mut labels = Vec::new();
     for k in 0..deliveries {
+        let same_epoch = cell_epoch() == issue_epoch;
         let rec = r.inst.call(Call::Timer(timeout.clone()));
+        CELL_CONN.with(|c| c.borrow_mut().absorb(&rec));
         r.absorb(&rec, &if k == 0 { Origin::Issued(pending.clone()) } else { Origin::Old(pending.clone()) });
         log.push(rec.render(r.inst.codec));
-        match judge_timeout(&rec, &r.inst.cfg, c.codec) {
+        match judge_timeout(&rec, &r.inst.cfg, c.codec, same_epoch) {
             Ok((eff, class)) => {
                 if k == 1 {
                     // a duplicate can never take effect twice
@@ -474,10 +520,11 @@ pub fn exec_cell(c: &Cell, out: &mut CaseOut) -> Result<(), Fail> {
 
 pub fn run(ctx: &Ctx, report: &mut Report) -> EvidenceMeta {
     ctx.run_enum("case-table", CELLS, cell, exec_cell, report, true);
+    ctx.run_enum("case-table-across-token-values", TOKEN_CELLS, token_cell, exec_cell, report, true);
     ctx.run_part(&part_random(), report);
     EvidenceMeta {
         level: "exploration",
-        rule: "(1) complete case table: 17 intervening events between raising a suspicion (through a real failed probe) and delivering its timeout (nothing, header/update refutation at same/higher incarnation, other member's Down gossip, newer identity via header/Down/Suspect update, forget then same/older identity rejoins, change_identity, self Down, idle-then-active, leave) x notify_down x bystander present x duplicate delivery x renewable x target incarnation {0,3,MAX-1} x codec x 4 RNG seeds, every cell reached through real API calls; (2) proptest random histories in which issued timeouts and forget-timers fire at random positions, repeatedly. Oracle: the timeout takes effect iff token current, record shows the same identity at the same incarnation and is active; then Down + MemberDown once + RemoveDown after remove_down_after + Down update queued + TurnUndead iff notify_down + Idle iff last member; otherwise no effect at all (no event, identical views). Down never becomes active under the same identity; records vanish only by their own forget-timer. Non-trivial: every table cell (distinct by outcome), random histories where a timeout fired after an intervening change of the same address."
+        rule: "(1) complete case table: 17 intervening events between raising a suspicion (through a real failed probe) and delivering its timeout (nothing, header/update refutation at same/higher incarnation, other member's Down gossip, newer identity via header/Down/Suspect update, forget then same/older identity rejoins, change_identity, self Down, idle-then-active, leave) x notify_down x bystander present x duplicate delivery x renewable x target incarnation {0,3,MAX-1} x codec x 4 RNG seeds, every cell reached through real API calls; (1b) the epoch-changing events again after 1..511 earlier identity changes so that the 8-bit timer token takes the values around its wrap; (2) proptest random histories in which issued timeouts and forget-timers fire at random positions, repeatedly. Oracle: the timeout takes effect iff token current, record shows the same identity at the same incarnation and is active; then Down + MemberDown once + RemoveDown after remove_down_after + Down update queued + TurnUndead iff notify_down + Idle iff last member; otherwise no effect at all (no event, identical views). Down never becomes active under the same identity; records vanish only by their own forget-timer. Non-trivial: every table cell (distinct by outcome), random histories where a timeout fired after an intervening change of the same address."
             .into(),
         assumptions: vec![
             "'same incarnation as when the suspicion was raised' is read as: record incarnation equals the timer's and the record is active (a member forgotten and re-registered at the same incarnation is indistinguishable)".into(),
@@ -488,7 +535,7 @@ pub fn run(ctx: &Ctx, report: &mut Report) -> EvidenceMeta {
 pub fn replay(part_name: &str, case: &Value) -> Option<Result<(), Fail>> {
     match part_name {
         "random-histories" => Some(replay_with(&part_random(), case)),
-        "case-table" => Some((|| {
+        "case-table" | "case-table-across-token-values" => Some((|| {
             let c: Cell = serde_json::from_value(case.clone()).map_err(|e| Fail::new("replay:bad-file", e.to_string()))?;
             exec_cell(&c, &mut CaseOut::default())
         })()),
